@@ -25,7 +25,7 @@ CLAIMED = {
    "Bounded model checking of jaq-core's single-output fast paths against a counting source iterator with an ARBITRARY lawful size_hint: "
    "next_if_one, map_with and collect_if_once never consume an item of a stream that may have more than one pending output, and map_with "
    "consumes exactly k source items for k outputs; jaq's own Explode iterator reports a lawful size_hint at every step (all 3-byte strings); the real limit! / first! / last! macros, driven by that counting source, pull f exactly once per "
-   "output for EVERY isize count (limit never computes the ($n+1)-th output, first computes one, last stops at the first error). Narrow: every interpreter arm (Comma, Alt, label, try), flat_map_* (undecided: CBMC's "
+   "output for EVERY isize count (limit never computes the ($n+1)-th output, first computes one, last stops at the first error); the first output of foreach (real fold::fold) is delivered after one update result. Narrow: every interpreter arm (Comma, Alt, label, try), flat_map_* (undecided: CBMC's "
    "over-approximated dyn dispatch), Stack, the lazy list, nth/isempty/any/all (defined in jq), inputs and the CLI loop are outside the claim.",
    "Sources of <= 3 u8 items; instantiation Iterator = harness type Src. Thorough tier retries the flat-map, Stack and lazy-list harnesses under a 40 min cap."),
  "C05": ("§4 C05",
@@ -75,7 +75,7 @@ CLAIMED = {
    "skip($n; f) is the errors among the first $n items followed by the rest ($n in {isize::MIN.., -1, 0, 1, 2, 3, 4, isize::MAX} as literals); hence limit ++ skip = f on error-free streams; first / last = first item / last item or first error; "
    "range($from; $to; $by) on machine integers obeys `if TEST then $from, range($from+$by; ...) else empty` from EVERY integer state (< / > / != by the sign of $by), an overflowing step is reported once and ends the stream. "
    "Streams of <= 3 items (6 thorough), each an output or an error. Narrow: the same macros' `paths` instances, range on floats / strings / arrays, and everything defined in jq (defs.jq: range/1,2, repeat, recurse, while, until, select, isempty, all, any, nth, add) "
-   "or by the fold engine (reduce / foreach: undecided, attempt) are outside the claim.",
+   "or by the fold engine beyond its first output (reduce / foreach: the first pull of the real fold::fold is decided - one update result and one input item are computed before the first output - a second pull exhausts 12 GB) are outside the claim.",
    "V = MV (machine integers, exact-or-error arithmetic); item type Result<u8, Error<MV>> so that no other trait object in the crate shares the virtual call's signature. The generator's step relation is decided two pulls at a time "
    "(a third pull exhausts 16 GB), which observes the successor state through one further output only."),
  "C10": ("§4 C10",
